@@ -77,6 +77,7 @@ class ListerModel(Model):
                     child = self.sess.mk_real_path("child")
                     child.listed_from = self.path
                     i.ctx.ghost.setdefault("children", {})[id(child)] = self.path
+                    i.ctx.ghost.setdefault("children_objs", []).append(child)
                     return child
 
                 return Coro(run, "lister.__anext__")
